@@ -12,8 +12,9 @@ import Wax.ExhFold
 import Wax.RuleS
 import Wax.Partition
 import Wax.Proofs.Exhaustive
-import Wax.Cmd.Frag
+import Wax.Cmd.Frag2
 import Wax.Unicode
+import Wax.SemSpec
 open Wax
 
 def unhex (s : String) : Str :=
@@ -46,8 +47,7 @@ def handle (line : String) : String :=
     match parse (unhex h) with
     | .err _ => "err"
     | .ok t =>
-      let κ : Casing := ⟨fun c => c.isAlpha || c == 'é' || c == 'É' || c == 'ǆ' || c == 'Ǆ'⟩
-      match textTok κ t with
+      match textTok drvCasing t with
       | .inv fs => "inv:" ++ hexStr (fragsToStr fs)
       | _ => "var"
   | ["R", h] =>
@@ -85,29 +85,23 @@ def handle (line : String) : String :=
   | ["F10", h] =>
     match parse (unhex h) with
     | .err _ => "err"
-    | .ok t =>
-      let ts := t.concatenation
-      let isRun : Tok → Bool := fun x => match x with | .lit .. | .cls .. | .one _ | .zom .. => true | _ => false
-      let isSp : Tok → Bool := fun x => match x with | .sep _ => true | _ => false
-      let solidT : Tok → Bool := fun x => match x with | .lit _ s _ => !s.isEmpty | .cls .. => true | .one _ => true | _ => false
-      if !ts.all (fun x => isRun x || isSp x) then
-        (if ts.any (fun x => match x with | .tree .. => true | _ => false) && ts.all (fun x => match x with | .alt .. | .rep .. | .cat .. => false | _ => true) then "out:tree" else "out:branch")
-      else
-        -- runs between separators
-        let runs : List (List Tok) := (ts.foldr (fun x acc => if isSp x then [] :: acc else match acc with | r :: rs => (x :: r) :: rs | [] => [[x]]) [[]])
-        let n := runs.length
-        let idx := List.range n
-        let midOk := (idx.zip runs).all (fun (i, r) => (i == 0 || i + 1 == n) || !r.isEmpty)
-        let solidOk := runs.all (fun r => r.isEmpty || r.any solidT)
-        if !midOk then "out:adjacent-sep" else if !solidOk then "out:nullable-run" else "in"
+    | .ok t => cmdF10 t
+  | ["F09", h] =>
+    match parse (unhex h) with
+    | .err _ => "err"
+    | .ok t => cmdF09 t
+  | ["F11", h] =>
+    match parse (unhex h) with
+    | .err _ => "err"
+    | .ok t => cmdF11 t
+  | ["ESC", h] => cmdESC (unhex h)
   | ["P", h] =>
     let e := unhex h
     match parse e with
     | .err _ => "err"
     | .ok t =>
       if !checkS t then "err" else
-      let κ : Casing := ⟨fun c => c.isAlpha || c == 'é' || c == 'É' || c == 'ǆ' || c == 'Ǆ' || c == 'ǅ'⟩
-      let (pre, off, post) := partition κ t
+      let (pre, off, post) := partition drvCasing t
       match post with
       | none => s!"prefix={hexStr pre} post=none"
       | some q =>
@@ -139,6 +133,10 @@ def handle (line : String) : String :=
     match parse (unhex h) with
     | .err _ => "err"
     | .ok t => if (encodeTop t).matchB drvSem (unhex ph) then "1" else "0"
+  | ["SL", h] =>
+    match parse (unhex h) with
+    | .err _ => "err"
+    | .ok t => if semSpec t then "1" else "0"
   | ["F", h] =>
     match parse (unhex h) with
     | .err _ => "err"
